@@ -548,6 +548,9 @@ func (w *World) run(steps int) {
 			var peers []*Peer
 			var kinds string
 			np := 1 + r.Intn(3)
+			if r.Chance(1, 6) {
+				np = 4 + r.Intn(5) // up to eight neighbors
+			}
 			for i := 0; i < np; i++ {
 				tgt := fmt.Sprintf("10.0.%d.%d:10600", s, i)
 				c := r.Intn(10)
